@@ -17,6 +17,22 @@ CHECKS = {
    "differential monitor: every request of a history on a long-lived Mux vs the same request on a fresh Mux; ID uniqueness set; Go race detector on concurrent runs",
    "All histories of up to 4 (quick) / 6 (thorough) ops over a 9-op alphabet (matched with 0/1/2 params or *, unmatched, partial match failing at the method node, panicking handler, registering a route with more parameters than any before, serving it) on one goroutine so that the pooled Store is reused maximally; relay, route and no-route handlers look up every parameter name of the table, RouteParamAny, W.Status and GetID. Random histories up to 200 ops; concurrent runs of 4-16 goroutines x 10^4 requests plain and under -race at GOMAXPROCS 2/4/16.",
    "Trusts that a fresh Mux is residue-free (it is the reference); registration concurrent with serving is outside the statement and not driven.", "§3 C05"),
+ "C01": ("logjson", "exploration",
+   "reference-model monitor: strict framing + UTF-8 + order-preserving JSON decode of every written line vs an independently computed expected tree; string- and shape-exhaustive sub-spaces, seeded random deep records",
+   "Every line the JSON handler writes (through the public Logger API and through Handler.Handle with a chosen time) is checked for framing, UTF-8, single-object syntax and ordered equality with the expected tree. The string space ('', all 1-/2-byte strings, every Unicode scalar alone and embedded; quick rotates through 1/16 of the scalars) is used as message, key, value and group name at once; the shape space (all With/WithGroup chains of up to 3 ops x forests with up to 4/5 nodes over leaf, keyed/inline/empty groups and LogValuer layers) is enumerated completely; random deep records add 23 value kinds with extremes and failing encoders.",
+   "Trusts encoding/json's decoder as the syntax judge and the 300-line expectation model; colour on, panicking LogValuers and times outside 1970..2191 are not generated.", "§3 C01"),
+ "C13": ("logtext", "exploration",
+   "independent tokenizer written from the grammar in the statement + expected (dotted path, value) list; same string-/shape-exhaustive and random corpora as C01",
+   "Every line the text handler writes is re-tokenised (pair = tok '=' tok, tok = Go-quoted or bare run without Unicode space, '=' or '\"') and the unquoted tokens must equal time, level, source, msg and each attribute's dotted path and value in order. Strings sit in message, key, value, group-key and WithGroup-name position simultaneously.",
+   "Trusts strconv.Unquote and the tokenizer (60 lines); ambiguity between (group,key) splits with the same dotted path is by design of the format.", "§3 C13"),
+ "C10": ("cfgargs", "exploration",
+   "reference-model monitor: a reference argv parser written from the documented grammar run next to FlagSet.Parse on exhaustive short vectors and seeded random vectors",
+   "All argument vectors of up to 5 (quick) / 6 (thorough) tokens over a 16-token alphabet of well-formed flags and near-misses, -config forms inserted at every position, plus 10^6/10^7 random vectors with arbitrary byte tokens; compared: error vs nil, Args(), ShowUsage(), all nine field values; recover() around Parse.",
+   "Typed value syntax is delegated to the same strconv/time/base64 functions the flag package uses; the property is about the grammar.", "§3 C10"),
+ "C17": ("urlpath", "exploration",
+   "reference-model monitor (segment-stack containment, no path.Clean) plus the real file system as canary (inode/content of what the result reaches)",
+   "All strings of length up to 8 (quick) / 10 (thorough) over {'/', '.', 'a', '\\'} x 12 base spellings against a lexical containment model, and up to 7/9 against a real temp tree with SECRET files outside the base where os.Stat/os.ReadFile of the result must stay inside (absolute and, after chdir, relative bases); random hostile paths with %2e, backslashes, long segments.",
+   "POSIX only; symlinks inside the base are outside the statement.", "§3 C17"),
 }
 BUILT = set(CHECKS)
 
